@@ -5,6 +5,8 @@
 //!   verif-harness run <req-file> <impl-file>        one impl observation line per request line
 //!   verif-harness candidates <req-file>             smaller variants of the (single) request
 mod cen;
+mod clu;
+mod comp;
 mod graphgen;
 mod rng;
 mod sp;
@@ -28,6 +30,8 @@ fn gen(family: &str, profile: &str, seed: u64, count: usize, size: usize) -> Vec
                 store::gen_case(&mut r, p, size).request()
             }
             "sp" => sp::gen_case(&mut r, profile, size).request(),
+            "clu" => clu::gen_case(&mut r, profile, size).request(),
+            "comp" => comp::gen_case(&mut r, profile, size).request(),
             "cen" => cen::gen_cen(&mut r, profile, size).request(),
             "eig" => cen::gen_eig(&mut r, profile, size).request(),
             _ => panic!("unknown family {}", family),
@@ -53,6 +57,8 @@ fn run_line(line: &str) -> String {
     match cmd.as_str() {
         "store" => store::observe(&store::Case::parse(&mut t)),
         "sp" => { let c = sp::Case::parse(&mut t); guarded(move || sp::observe_inner(&c)) }
+        "clu" => { let c = clu::Case::parse(&mut t); guarded(move || clu::observe(&c)) }
+        "comp" => { let c = comp::Case::parse(&mut t); guarded(move || comp::observe(&c)) }
         "cen" => { let c = cen::CenCase::parse(&mut t); guarded(move || cen::observe_cen(&c)) }
         "eig" => { let c = cen::EigCase::parse(&mut t); guarded(move || cen::observe_eig(&c)) }
         _ => format!("i.badrequest={}", cmd),
@@ -64,6 +70,8 @@ fn candidates(line: &str) -> Vec<String> {
     match cmd.as_str() {
         "store" => store::candidates(&store::Case::parse(&mut t)),
         "sp" => sp::candidates(&sp::Case::parse(&mut t)),
+        "clu" => clu::candidates(&clu::Case::parse(&mut t)),
+        "comp" => comp::candidates(&comp::Case::parse(&mut t)),
         "cen" => cen::candidates_cen(&cen::CenCase::parse(&mut t)),
         "eig" => cen::candidates_eig(&cen::EigCase::parse(&mut t)),
         _ => vec![],
